@@ -34,15 +34,21 @@ MemRegs(a) == [i \in 1..13 |-> IF i = 4 THEN <<1, 35, 69, 103, 137, 171, 205, 23
 MemState(a) == [pc |-> 0, gas |-> 2, regs |-> MemRegs(a), acc |-> WinAcc, data |-> WinData, hp |-> U(73728), hl |-> U(86016)]
 MemKeys == {<<op, a>> : op \in MemOps, a \in Addrs}
 
-\* sbrk scripts: requests (as byte counts) issued one after the other: sbrk r7 <- r8, then load r8 with the next
-Requests == IF Tier = "quick" THEN {0, 1, 4096, 4097, 12288, 12289}
-            ELSE {0, 1, 2, 4095, 4096, 4097, 8191, 8192, 12287, 12288, 12289, 65536}
+\* sbrk scripts: two requests (64-bit values) issued one after the other: sbrk r7 <- r8 ; load_imm_64 r8, second ; sbrk r9 <- r8 ;
+\* then a store through the first result and trap.  Requests include values that wrap around 2^64 when added to the
+\* heap pointer (a wrapped sum lands below the heap: the request must fail).
+Requests == IF Tier = "quick"
+            THEN {U(0), U(1), U(4096), U(4097), U(12288), U(12289), UMax, <<240, 255, 255, 255, 255, 255, 255, 255>>,
+                  <<0, 224, 255, 255, 255, 255, 255, 255>>}
+            ELSE {U(0), U(1), U(2), U(4095), U(4096), U(4097), U(8191), U(8192), U(12287), U(12288), U(12289), U(65536), UMax,
+                  <<240, 255, 255, 255, 255, 255, 255, 255>>,        \* 2^64 - 16
+                  <<0, 224, 255, 255, 255, 255, 255, 255>>,          \* 2^64 - 8192: wraps to two pages below the heap start
+                  <<0, 240, 254, 255, 255, 255, 255, 255>>,          \* 2^64 - 69632: wraps to 0x1000 (below 2^16)
+                  <<0, 0, 0, 0, 0, 0, 0, 128>>, <<0, 0, 0, 0, 1, 0, 0, 0>>}
 Limits == {73728, 73729, 77824, 86016}       \* heap limit = heap start, +1, +1 page, +3 pages
 SbrkKeys == {<<r1, r2, hl>> : r1 \in Requests, r2 \in Requests, hl \in Limits}
-\* sbrk r7,r8 ; load_imm r8, r2 ; sbrk r9,r8 ; store_u8 [r7-1+...]: a store through the first result, then trap
-LE3(n) == <<n % 256, (n \div 256) % 256, (n \div 65536) % 256>>
-SbrkProg(k) == LET c == <<101, 135>> \o (<<51, 8>> \o LE3(k[2])) \o <<101, 137>> \o <<120, 115, 0>> \o <<0>>
-               IN [code |-> c, mask |-> <<1, 0, 1, 0, 0, 0, 0, 1, 0, 1, 0, 0, 1>>, jt |-> <<>>, z |-> 0]
-SbrkState(k) == [pc |-> 0, gas |-> 10, regs |-> [i \in 1..13 |-> IF i = 9 THEN U(k[1]) ELSE IF i = 4 THEN U(90) ELSE U64Zero],
+SbrkProg(k) == LET c == <<101, 135>> \o (<<20, 8>> \o k[2]) \o <<101, 137>> \o <<120, 115, 0>> \o <<0>>
+               IN [code |-> c, mask |-> <<1, 0>> \o <<1, 0, 0, 0, 0, 0, 0, 0, 0, 0>> \o <<1, 0>> \o <<1, 0, 0>> \o <<1>>, jt |-> <<>>, z |-> 0]
+SbrkState(k) == [pc |-> 0, gas |-> 10, regs |-> [i \in 1..13 |-> IF i = 9 THEN k[1] ELSE IF i = 4 THEN U(90) ELSE U64Zero],
                  acc |-> WinAcc, data |-> WinData, hp |-> U(73728), hl |-> U(k[3])]
 =============================================================================
